@@ -502,12 +502,34 @@ class C10(CrossCfg):
             if i % 2 == 0:
                 # the documented SQL views hide expired keys with SQLite's clock (verdict W)
                 out[-1]["args"] = out[-1]["args"] + ["-views"]
+        # the expiry rules over the wire: every command that sets, keeps, clears or reports an expiry, with second and
+        # millisecond units, absolute times with a millisecond part, times in the past, and TTL transfer (KEEPTTL, INCR,
+        # RENAME, PERSIST); judged by the wire model on the full tables (the stored etime) and the replies
+        far_s, far_ms = 4102444800, 4102444800123
+        w = ""
+        for setter in (f"SET k v PXAT {far_ms}", f"SET k v EXAT {far_s}", "SET k v PX 3600123", "SET k v EX 3600", "SETEX k 3600 v", "PSETEX k 3600123 v",
+                       f"SET k v PXAT {far_ms + 864}", "SET k v PXAT 1500", "SET k v EXAT 1", f"SET k v NX PXAT {far_ms}", f"SET k v XX PXAT {far_ms}",
+                       f"SET k v GET PXAT {far_ms + 1}"):
+            w += "---\n1 SET k old\n" + f"1 {setter}\n1 TTL k\n1 GET k\n1 EXISTS k\n1 KEYS *\n1 SET k v2 KEEPTTL\n1 TTL k\n1 SET k v3\n1 TTL k\n"
+        for exp in (f"PEXPIREAT k {far_ms}", f"EXPIREAT k {far_s}", "PEXPIRE k 7200123", "EXPIRE k 7200", "PEXPIREAT k 1500", "EXPIREAT k 1", "PEXPIRE k 1", "EXPIRE k 0", "EXPIRE k -5"):
+            for mk in ("SET k 10", "RPUSH k a b", "SADD k a", "HSET k f 1", "ZADD k 1 a"):
+                w += "---\n" + f"1 {mk}\n1 {exp}\n1 TTL k\n1 TYPE k\n1 EXISTS k\n1 DBSIZE\n"
+                w += {"SET k 10": "1 INCR k\n1 INCRBYFLOAT k 1.5\n", "RPUSH k a b": "1 LPUSH k c\n1 LLEN k\n", "SADD k a": "1 SADD k b\n1 SCARD k\n",
+                      "HSET k f 1": "1 HINCRBY k f 2\n1 HLEN k\n", "ZADD k 1 a": "1 ZINCRBY k 2 a\n1 ZCARD k\n"}[mk]
+                w += "1 TTL k\n1 RENAME k k2\n1 TTL k2\n1 TTL k\n1 PERSIST k2\n1 TTL k2\n"
+        out.append(dict(kind="wirescript", driver="wiredriver", script=w))
         return out
 
+    needs_wire = True
+
     def counts(self, op, v):
-        return v.get("E") == "1"
+        return v.get("E") == "1" or v.get("_wire") is not None
 
     def judge(self, op, v, mode):
+        if v.get("_wire") is not None:
+            if v.get("M") == "0":
+                return ("violation", "an expiry set, kept, cleared or reported over the wire is not what the documented rule gives (wire model: reply or stored expiry differs)")
+            return None
         if v.get("E") == "1":
             r = judge_spec(v, self.listed)
             if r:
@@ -652,7 +674,8 @@ class C17(Cfg):
     facts = [r"^consts\.(tobytes|isValueType|key_exists)", r"^schema\.table_"]
     listed = ALL_API_FINDINGS
     rule = ("random traces in which every key, field, member, element and value is drawn from a hostile pool (empty, NUL, CR/LF, invalid "
-            "UTF-8, metacharacters, digit strings) with p=0.6..1.0, string and []byte argument forms; each step judged against model and spec")
+            "UTF-8, metacharacters, digit strings) with p=0.6..1.0, string and []byte argument forms, values given as Go int / bool / float64 / nil slice; "
+            "1 MiB values (every byte value) in every value role and 64 KiB field and key names; each step judged against model and spec")
 
     needs_wire = True
 
@@ -678,6 +701,19 @@ class C17(Cfg):
                          f"1 RPOPLPUSH l l2", "1 SCAN 0", "1 HSCAN h 0", "1 SSCAN s 0", "1 ZSCAN z 0"]:
                 script += line + "\n"
         out.append(dict(kind="wirescript", driver="wiredriver", script=script))
+        # "megabytes long": a value holding every byte value (1 MiB, 3 MiB in the thorough tier) as string value, list
+        # element, hash value and set member, and as a hash FIELD and a KEY NAME of 64 KiB, written and read back
+        size = (3 if tier == "thorough" else 1) * 4096
+        big = "x" + (bytes(range(256)) * size).hex()
+        name = "x" + (bytes(range(1, 256)) * 257).hex()
+        bs = ""
+        for sec in (f"str.Set {hx('k')} {big}\nstr.Get {hx('k')}\nstr.Set {hx('k')} {big}00\nstr.Get {hx('k')}\n",
+                    f"list.PushBack {hx('l')} {big}\nlist.Range {hx('l')} 0 -1\nlist.Get {hx('l')} 0\n",
+                    f"hash.Set {hx('h')} {hx('f')} {big}\nhash.Get {hx('h')} {hx('f')}\nhash.Set {hx('h')} {name} {hx('v')}\nhash.Get {hx('h')} {name}\nhash.Exists {hx('h')} {name}00\n",
+                    f"set.Add {hx('s')} 1 {big}\nset.Exists {hx('s')} {big}\nset.Exists {hx('s')} {big}00\n",
+                    f"str.Set {name} {hx('v')}\nstr.Get {name}\nkey.Exists {name}\nkey.Exists {name}00\nkey.Rename {name} {name}01\nstr.Get {name}01\n"):
+            bs += "--- db\n" + sec
+        out.append(dict(kind="script", script=bs))
         return out
 
     def judge(self, op, v, mode):
